@@ -111,3 +111,50 @@ def inverse_lemma(syntax, rate, model, obligation="", **_):
     bad = True
     out.append("order changed")
   return bad, f"{syntax}@{rate}: " + "; ".join(out)
+
+
+def shape(shape="twop", mask=(), syntax="clock_time", rate=None, model=None, obligation=None, **_):
+  """proof tier `roundtrip[shape:mask;syntax@rate]`: the counter-model's timing values on the shape, natively: write, read back, and
+  list the times of both documents side by side (reproduced = an element with content is lost, or a time moves by a unit or more)"""
+  import logging
+  from fractions import Fraction
+  import ttconv.model as m
+  import ttconv.imsc.writer as w
+  import ttconv.imsc.reader as r
+  from ttconv.imsc.config import IMSCWriterConfiguration, TimeExpressionSyntaxEnum
+  from specs.isd_shapes import SHAPES
+  logging.disable(logging.CRITICAL)
+  model = model or {}
+  vals = {k: Fraction(str(model.get(k, 0) or 0)) for k in mask}
+  fps = Fraction(rate) if rate else None
+  unit = Fraction(1, 1000) if fps is None else 1 / fps
+  doc = SHAPES[shape](lambda n: vals.get(n))
+  try:
+    tree = w.from_model(doc, IMSCWriterConfiguration(time_format=getattr(TimeExpressionSyntaxEnum, syntax), fps=fps))
+    doc2 = r.to_model(tree)
+  except Exception as e:  # pylint: disable=broad-except
+    return True, f"shape {shape} with {vals}: {type(e).__name__}: {e}"
+
+  def flat(d):
+    return [(type(e).__name__, e.get_begin(), e.get_end(), "".join(c.get_text() for c in e if isinstance(c, m.Text)))
+            for e in (d.get_body().dfs_iterator() if d.get_body() is not None else []) if not isinstance(e, (m.Text, m.Br))]
+  a, b = flat(doc), flat(doc2)
+  text_a = "".join(x[3] for x in a)
+  text_b = "".join(x[3] for x in b)
+  bad = []
+  j = 0
+  for x in a:
+    y = next((b[k] for k in range(j, len(b)) if b[k][0] == x[0] and b[k][3] == x[3]), None)
+    if y is None:
+      continue
+    j = b.index(y, j) + 1
+    for t0, t1, what in ((x[1], y[1], "begin"), (x[2], y[2], "end")):
+      if t0 is not None and t1 is not None and abs(t1 - t0) >= unit:
+        bad.append(f"{x[0]} {x[3]!r} {what}: {t0} -> {t1}")
+  lost = [c for c in text_a if c not in text_b]
+  lines = [f"shape {shape} with {dict((k, str(v)) for k, v in vals.items())}, {syntax}{'@' + str(rate) if rate else ''}",
+           "source : " + "; ".join(f"{k}{'' if not t else ' ' + repr(t)} [{b0}, {e0})" for k, b0, e0, t in a),
+           "re-read: " + "; ".join(f"{k}{'' if not t else ' ' + repr(t)} [{b0}, {e0})" for k, b0, e0, t in b)]
+  if bad or lost:
+    return True, "\n".join(lines + ["FAILED: " + "; ".join(bad + ([f"text lost: {''.join(lost)!r}"] if lost else []))])
+  return False, "\n".join(lines + ["every time within one unit, no text lost"])
